@@ -28,6 +28,7 @@ CLAUSES = {
     "store_before_send": "store_before_send",
     "kept_until_acked": "kept_until_acked",
     "resend_on_connect": "resend_on_connect",
+    "resend_before_new": "resend_on_connect",   # a new request sent/saved between the accepted CONNACK and the last re-send
     "future_truthful": "future_truthful",
     "future_total": "future_total",
     "accessors_total": "accessors_total",
